@@ -993,8 +993,8 @@ class C09(Property):
             comps = [x for r in remotes for x in _comps(r)]
             if any(_becomes_special(x) for x in comps):
                 res.count('remote:normalisable-component')
-            if any(x.strip(''.join(p for p in PADS if len(p) == 1) + '\x00') in ('.', '..') and x not in ('.', '..')
-                   for x in comps):
+            if any(x.strip(''.join(p for p in PADS if len(p) == 1 and p != '.') + '\x00') in ('.', '..')
+                   and x not in ('.', '..') for x in comps):
                 res.count('remote:padded-dots')
             if any(_blen(x) > 240 for x in comps):
                 res.count('remote:name-around-or-beyond-NAME_MAX')
